@@ -284,6 +284,7 @@ func cacheCore(w *World, r *Report, la *LockAn, full bool) {
 }
 
 func runC12(w *World, r *Report) {
+	hrRetryAfterHelpers(w, r, "R6")
 	la := NewLockAn(w)
 	cacheCore(w, r, la, true)
 	c12Extra(w, r)
